@@ -705,13 +705,46 @@ def apply_root(Pm, root, r, rec=True):
     raise KeyError(root)
 
 
-def eval_tree(Pm, case, with_derivs=True, displace=None):
+# The points at which an operation of the API is not differentiable although its value is defined (the property speaks
+# about smooth points only; at these the implementation rightly masks the derivative and keeps the value):
+#   sep, ucross, twovec     the two vectors are parallel, antiparallel or zero (angle 0 or pi: |a x b| = 0)
+#   unit, norm, with_norm   the zero vector;      perp, proj     a zero second operand
+NONSMOOTH_IF_PARALLEL = {'sep', 'ucross', 'twovec'}
+NONSMOOTH_IF_ZERO = {'unit': 0, 'norm': 0, 'pnorm': 0, 'with_norm': 0, 'perp': 1, 'proj': 1}
+
+
+def nonsmooth_elements(node, a):
+    """boolean array over the leading shape of the operation's result: True where the operand VALUES lie on the
+    operation's singular set (decided on the operands with plain NumPy, not on what the implementation returns)"""
+    op = node['op']
+    if op in NONSMOOTH_IF_PARALLEL:
+        x, y = (np.asarray(o.values, dtype=float) for o in a[:2])
+        if x.shape[-1] != 3 or y.shape[-1] != 3:
+            return None
+        c = np.linalg.norm(np.cross(x, y), axis=-1)
+        return c <= 1e-9 * np.linalg.norm(x, axis=-1) * np.linalg.norm(y, axis=-1)
+    if op in NONSMOOTH_IF_ZERO:
+        x = np.asarray(a[NONSMOOTH_IF_ZERO[op]].values, dtype=float)
+        return np.linalg.norm(x, axis=-1) == 0.0
+    return None
+
+
+def eval_tree(Pm, case, with_derivs=True, displace=None, mark_nonsmooth=False):
+    """mark_nonsmooth: additionally mask, in the result of every operation with a singular set, the elements whose
+    operands lie on it; the implementation's own mask propagation then carries the mark to every element of the final
+    result that depends on such a point (used only to decide whether a masked derivative is excused, see run_case)"""
     leaves = [build_leaf(Pm, l, case['denoms'], with_derivs, displace) for l in case['leaves']]
 
     def go(n):
         if 'leaf' in n:
             return leaves[n['leaf']]
-        return apply_op(Pm, n, [go(x) for x in n['args']])
+        args = [go(x) for x in n['args']]
+        res = apply_op(Pm, n, args)
+        if mark_nonsmooth:
+            deg = nonsmooth_elements(n, args)
+            if deg is not None and np.any(deg):
+                res = type(res)(res.values, Pm.Qube.or_(res.mask, np.broadcast_to(deg, res.shape)))
+        return res
     r = go(case['tree'])
     if case.get('root'):
         if not r.shape or isinstance(r, Pm.Matrix3):      # Matrix3 rejects sum/mean by design
@@ -753,7 +786,7 @@ H = 2e-4
 def run_case(case, Pm):
     """returns (problem or None, detail, nontrivial, stats)"""
     det = {}
-    stats = {'elements': 0, 'skipped_nonsmooth': 0}
+    stats = {'elements': 0, 'skipped_nonsmooth': 0, 'skipped_singular': 0}
     with warnings.catch_warnings():
         warnings.simplefilter('ignore')
         try:
@@ -787,6 +820,7 @@ def run_case(case, Pm):
         if not np.all(np.isfinite(vals[kk])):
             return None, det, False, stats          # not a smooth point (overflow): outside the property
         nontriv = bool(np.any(rmask)) or len(want) > 1 or any(case['denoms'][k] for k in want)
+        excused = None
         for key in want:
             d = r.derivs[key]
             den = tuple(case['denoms'][key])
@@ -799,8 +833,21 @@ def run_case(case, Pm):
             if d.derivs:
                 return 'd_d%s carries derivatives itself' % key, det, True, stats
             dmask = np.broadcast_to(np.asarray(d.mask), d.shape)
+            keepk = keep
             if np.any(dmask & ~rmask):
-                return 'd_d%s is masked at an unmasked element of the result' % key, det, True, stats
+                # a masked derivative under an unmasked value is right exactly where the element depends on a point at
+                # which an operation below is not differentiable (sep of parallel vectors, norm of the zero vector):
+                # those elements are outside the property ("at smooth points"); anywhere else it is a violation
+                if excused is None:
+                    try:
+                        rs = eval_tree(Pm, case, with_derivs=False, mark_nonsmooth=True)
+                        excused = np.broadcast_to(np.asarray(rs.mask), r.shape) & ~rmask
+                    except Exception:       # noqa
+                        excused = np.zeros(r.shape, bool)
+                if np.any(dmask & ~rmask & ~excused):
+                    return 'd_d%s is masked at an unmasked element of the result' % key, det, True, stats
+                stats['skipped_singular'] += int(np.sum(dmask & ~rmask))
+                keepk = keep & ~dmask
             dv = np.asarray(d.values, dtype=float)
             nd = int(np.prod(den)) if den else 1
             dv = dv.reshape(vals.shape + (nd,))
@@ -819,7 +866,7 @@ def run_case(case, Pm):
                     fd.append((np.asarray(rp.values, float) - np.asarray(rm.values, float)) / (2 * h))
                 rich = (4 * fd[1] - fd[0]) / 3
                 err = np.abs(fd[1] - fd[0])
-                kj = np.broadcast_to((keep & ~bad_mask).reshape(keep.shape + (1,) * (vals.ndim - keep.ndim)), vals.shape)
+                kj = np.broadcast_to((keepk & ~bad_mask).reshape(keep.shape + (1,) * (vals.ndim - keep.ndim)), vals.shape)
                 car = dv[..., j]
                 scale = 1 + np.abs(rich) + np.abs(car)
                 # smoothness is judged on the finite differences alone (a huge carried derivative at an ill-conditioned
@@ -963,11 +1010,13 @@ def run(ctx):
     t0 = time.time()
     fails = {}
     shown = {}
-    tot = {'elements': 0, 'skipped_nonsmooth': 0}
+    tot = {'elements': 0, 'skipped_nonsmooth': 0, 'skipped_singular': 0}
     for c in cases:
         prob, det, nontriv, stats = run_case(c, Pm)
         for k in tot:
-            tot[k] += stats[k]
+            tot[k] += stats.get(k, 0)
+        if stats.get('skipped_singular'):
+            ctx.count('trees_with_elements_on_a_singular_set(masked derivative excused there)')
         ctx.note_case(slim(c), nontriv)
         ops = ops_of(c)
         for o in set(ops):
@@ -996,6 +1045,7 @@ def run(ctx):
             % (len(cases), tot['elements'], tot['skipped_nonsmooth'], time.time() - t0, fails))
     ctx.cov['derivative_elements_compared'] = tot['elements']
     ctx.cov['elements_skipped_nonsmooth'] = tot['skipped_nonsmooth']
+    ctx.cov['elements_on_singular_set_of_an_operation'] = tot['skipped_singular']
     ctx.cov['numeric_failures'] = fails
     ctx.exhaustive = False
     return ctx.finish()
